@@ -34,6 +34,12 @@ class Chan:
         self.kind = kind
         w.chans.append(self)
 
+    def key(self):
+        return ("chan", self.id)
+
+    def txkey(self):
+        return ("chan-tx", self.id)
+
     def release_one(self):
         if self.waitq:
             self.granted.append(self.waitq.pop(0))
@@ -68,6 +74,8 @@ class Sender(ModelObj):
     def __init__(self, chan):
         self.chan = chan
 
+    # The exact sender count is observable only through its zero-ness (recv -> None, upgrade,
+    # strong_count > 0): increments/decrements that do not reach 0 commute with everything.
     def clone(self, it):
         self.chan.tx_count += 1
         self.chan.w.touch()
@@ -76,6 +84,8 @@ class Sender(ModelObj):
     def drop(self, it):
         self.chan.tx_count -= 1
         self.chan.w.touch()
+        if self.chan.tx_count == 0:
+            self.chan.w.acc(self.chan.txkey(), True)
 
 
 class WeakSender(ModelObj):
@@ -96,10 +106,13 @@ class Receiver(ModelObj):
 
     def poll_recv(self, it):
         c = self.chan
+        c.w.acc(c.key(), bool(c.buf))
+        c.w.acc(c.txkey(), False)
         if c.buf:
             v = c.buf.pop(0)
             c.popped += 1
             c.release_one()
+            c.w.on_take(c, v)
             return mk_ready(mk_some(v))
         if c.tx_count == 0:
             return mk_ready(mk_none())
@@ -109,6 +122,7 @@ class Receiver(ModelObj):
 
     def drop(self, it):
         c = self.chan
+        c.w.acc(c.key(), True)
         c.close()
         c.rx_alive = False
         while c.buf:
@@ -126,13 +140,17 @@ class SendFut(ModelObj):
 
     def poll(self, it, cx):
         c = self.chan
+        k = c.key()
+        c.w.acc(k, False)
         if c.closed:
             if self.ticket:
+                c.w.acc(k, True)
                 c.withdraw(self.ticket)
                 self.ticket = 0
             v, self.value = self.value, MOVED
             return mk_ready(mk_err(Agg("struct", "SendError", [v])))
         if self.ticket == 0:
+            c.w.acc(k, True)
             if c.free > 0:
                 c.free -= 1
                 v, self.value = self.value, MOVED
@@ -144,6 +162,7 @@ class SendFut(ModelObj):
             c.w.touch()
             return mk_pending()
         if self.ticket in c.granted:
+            c.w.acc(k, True)
             c.granted.remove(self.ticket)
             self.ticket = 0
             v, self.value = self.value, MOVED
@@ -153,6 +172,7 @@ class SendFut(ModelObj):
 
     def drop(self, it):
         if self.ticket:
+            self.chan.w.acc(self.chan.key(), True)
             self.chan.withdraw(self.ticket)
             self.ticket = 0
         v, self.value = self.value, MOVED
@@ -189,6 +209,7 @@ class OsSender(ModelObj):
     def drop(self, it):
         self.c.tx_dropped = True
         self.c.w.touch()
+        self.c.w.acc(("os", self.c.id), True)
 
 
 class OsReceiver(ModelObj):
@@ -199,6 +220,7 @@ class OsReceiver(ModelObj):
 
     def poll(self, it, cx):
         c = self.c
+        c.w.acc(("os", c.id), c.has_value)
         if c.has_value:
             c.has_value = False
             v, c.value = c.value, None
@@ -209,6 +231,7 @@ class OsReceiver(ModelObj):
 
     def drop(self, it):
         c = self.c
+        c.w.acc(("os", c.id), True)
         c.rx_dropped = True
         if c.has_value:
             c.has_value = False
@@ -225,12 +248,14 @@ class Timeout(ModelObj):
         self.d = d
         self.deadline = w.now + d          # z3 / int arithmetic on nanoseconds
         w.timeouts.append(d)
+        w.deadlines.append(self.deadline)
 
     def poll(self, it, cx):
         r = it.env.poll_future(it, self.fut, cx)
         if r.variant == "Ready":
             return mk_ready(mk_ok(r.fields[0]))
         w = it.env
+        w.acc(("clock",), False)
         if it.ex.branch_bool(w.zge(w.now, self.deadline)):
             return mk_ready(mk_err(Agg("struct", "Elapsed", [])))
         return mk_pending()
@@ -278,6 +303,7 @@ class JoinHandle(ModelObj):
 
     def poll(self, it, cx):
         t = self.task
+        t.w.acc(("task", t.id), False)
         if t.state == "running":
             return mk_pending()
         if t.state == "finished":
@@ -300,6 +326,7 @@ class Task:
         self.result = None
         self.last_pending_version = -1
         self.self_wake = False
+        self.wait = None
         self.panic_msg = None
         w.tasks.append(self)
 
@@ -348,6 +375,10 @@ class HookFuture(ModelObj):
             self.started = True
             it.ex.event(ev="hook_enter", hook=self.kind, actor=self.actor_name, **self.info)
         self.body_polls += 1
+        a = w.actors.get(self.actor_name)
+        if a and a.get("mailbox") is not None:
+            w.acc(a["mailbox"].key(), False)
+            w.acc(a["term"].key(), False)
         it.ex.event(ev="hook_poll", hook=self.kind, actor=self.actor_name, n=self.body_polls,
                     mailbox=w.mailbox_len(self.actor_name), kill_pending=w.kill_pending(self.actor_name))
         while True:
@@ -402,12 +433,26 @@ class World:
         self.rng_next = None
         self.builtins = {}
         self.thread_results = []
+        self.deadlines = []
+        self.unwinding_now = False
+        self.cur_fp = {}
+        self.obj_ver = {}
         from . import builtins_std
         builtins_std.install(self)
 
     # ---- misc helpers ------------------------------------------------------------------
     def touch(self):
         self.version += 1
+
+    def acc(self, key, write=False):
+        """record an access of the running step to a shared object (footprint for the
+        partial-order reduction, wait-set for precise wake-ups)"""
+        fp = self.cur_fp
+        if write:
+            self.obj_ver[key] = self.obj_ver.get(key, 0) + 1
+            fp[key] = "w"
+        elif fp.get(key) != "w":
+            fp[key] = "r"
 
     def zge(self, a, b):
         if isinstance(a, int) and isinstance(b, int):
@@ -417,6 +462,7 @@ class World:
         return z3.UGE(az, bz)
 
     def advance(self, d):
+        self.acc(("clock",), True)
         self.now = self.now + d
         if not isinstance(self.now, int):
             self.now = z3.simplify(self.now)
@@ -439,8 +485,10 @@ class World:
             return v.v if not v.is_sym() else str(v.v)
         if isinstance(v, bool) or v is None or isinstance(v, (int, str)):
             return v
-        if v == ():
+        if isinstance(v, tuple) and not v:
             return "()"
+        if isinstance(v, z3.ExprRef):
+            return str(v)
         if isinstance(v, Agg):
             if v.kind == "enum":
                 return "%s(%s)" % (v.variant, ",".join(str(self.describe(f)) for f in v.fields)) if v.fields else v.variant
@@ -449,8 +497,23 @@ class World:
             return "Box(%s)" % self.describe(v.cell.value)
         return type(v).__name__
 
+    def msg_label(self, v):
+        if isinstance(v, Agg) and v.variant == "Envelope":
+            pl = v.fields[0]
+            inner = pl.cell.value if isinstance(pl, BoxV) else pl
+            idv = inner.fields[0] if isinstance(inner, Agg) and inner.fields else None
+            return {"what": "msg", "id": idv, "ask": v.fields[1].variant == "Some", "kind": inner.name if isinstance(inner, Agg) else "?"}
+        if isinstance(v, Agg) and v.variant == "StopGracefully":
+            return {"what": "stop"}
+        if isinstance(v, Agg) and v.variant == "Terminate":
+            return {"what": "terminate"}
+        return {"what": "other"}
+
     def on_push(self, chan, v):
-        pass
+        self.ex.event(ev="accepted", chan=chan.kind, clock=self.sim.tick() if hasattr(self, "sim") else 0, **self.msg_label(v))
+
+    def on_take(self, chan, v):
+        self.ex.event(ev="taken", chan=chan.kind, clock=self.sim.tick() if hasattr(self, "sim") else 0, **self.msg_label(v))
 
     # ---- futures -----------------------------------------------------------------------
     def poll_future(self, it, fut, cx):
@@ -479,9 +542,11 @@ class World:
         self.cur_task = t
         t.self_wake = False
         cx = Opaque("Context", t.id)
+        self.cur_fp = {}
         try:
             r = self.poll_future(it, t.fut, cx)
         except RustPanic as p:
+            self.unwinding_now = False
             t.state = "panicked"
             t.panic_msg = p.msg
             it.ex.event(ev="task_panicked", task=t.name, msg=p.msg[:120])
@@ -492,21 +557,62 @@ class World:
                 pass
             t.fut = None
             self.touch()
+            self.acc(("task", t.id), True)
             self.cur_task = None
+            self.release_peer_refs(it, t)
             return
         self.cur_task = None
         if r.variant == "Ready":
+            self.acc(("task", t.id), True)
             t.state = "finished"
             t.result = r.fields[0]
             it.ex.event(ev="task_finished", task=t.name, result=self.describe(t.result))
             it.drop_value(t.fut)
             t.fut = None
             self.touch()
+            self.release_peer_refs(it, t)
         else:
             t.last_pending_version = self.version
+            t.wait = {k: self.obj_ver.get(k, 0) for k in self.cur_fp}
+
+    def release_peer_refs(self, it, t):
+        """references a scripted actor holds to its peers die with the actor"""
+        for a in self.actors.values():
+            if a.get("task") is t:
+                for c in a.get("peer_refs", {}).values():
+                    if c.value is not MOVED:
+                        v, c.value = c.value, MOVED
+                        it.drop_value(v)
 
     def runnable(self, t):
-        return t.state == "running" and t.fut is not None and (t.self_wake or t.last_pending_version != self.version)
+        if t.state != "running" or t.fut is None:
+            return False
+        if t.self_wake or t.wait is None:
+            return True
+        return any(self.obj_ver.get(k, 0) != v for k, v in t.wait.items())
+
+    # ---- blocking calls (no threads in the model: the caller spins, everybody else runs) ------
+    def block_on(self, it, fut):
+        cx = Opaque("Context", "blocking")
+        saved = self.cur_task
+        for _n in range(100):
+            r = self.poll_future(it, fut, cx)
+            self.cur_task = saved
+            if r.variant == "Ready":
+                it.drop_value(fut) if not isinstance(fut, Agg) or fut.kind != "coroutine" or not fut.extra.get("done") else None
+                return r.fields[0]
+            before = self.version
+            self.sim.run_fair_excluding(saved)
+            self.cur_task = saved
+            if self.version == before:
+                # nothing but time can change: jump to the earliest pending deadline
+                nxt = [t for t in self.deadlines if isinstance(t, int) and isinstance(self.now, int) and t > self.now]
+                if not nxt:
+                    raise Unsupported("a blocking call can never complete in the model (no runnable task, no pending timer)")
+                self.now = min(nxt)
+                self.touch()
+                self.ex.event(ev="clock_jump", now=self.now)
+        raise Unsupported("block_on bound exceeded")
 
     # ---- actions inside hooks / client tasks ---------------------------------------------
     def start_action(self, it, act, hook):
@@ -514,7 +620,11 @@ class World:
         kind = act[0]
         if kind in ("ask", "tell", "ask_t", "tell_t"):
             target = self.actors[act[1]]
-            refv = Ref(target["ref_cell"], (), False)
+            holder = self.actors.get(hook.actor_name) if hook else None
+            cell = (holder or {}).get("peer_refs", {}).get(act[1]) or target["ref_cell"]
+            if cell.value is MOVED:
+                raise Unsupported("scripted actor %s has no live reference to %s" % (hook.actor_name if hook else "?", act[1]))
+            refv = Ref(cell, (), False)
             msg = self.mk_msg(act[2])
             meth = {"ask": "ask", "tell": "tell", "ask_t": "ask_with_timeout", "tell_t": "tell_with_timeout"}[kind]
             args = [refv, msg]
